@@ -62,7 +62,7 @@ theorem executing_reentry_typeerror (fuel : Nat) (cmd : Cmd) :
 /-- … and that is what a re-entrant call made by the running body evaluates to: an abrupt TypeError at the call. -/
 theorem body_reentry_throws (kd : CmdKind) (env : List Val) (k : List Frame) :
     step { ctl := .evalE (.reent kd), env := env, k := k }
-      = .cont { ctl := .abrupt (.thr .terr), env := env, k := k } panicMark := by
+      = .cont { ctl := .abrupt (.thr .terr), env := env, k := k } [] := by
   cases kd <;> rfl
 
 /-- The first next(v) ignores v. -/
@@ -399,7 +399,7 @@ theorem iterator_return_throw_replaces_nonthrow (cp : Completion) (lf : Label) (
     (env : List Val) (k : List Frame) (e : Val) (hc : (iterClose it).2 = some e) (hn : loopAction lf cp ≠ some false) :
     step { ctl := .abrupt cp, env := env, k := .forOfK lf x it body :: k }
       = .cont { ctl := .abrupt (if isThr cp then cp else .thr e), env := env, k := k }
-          ((iterClose it).1 ++ (if isThr cp then [] else panicMark)) := by
+          (iterClose it).1 := by
   simp only [step, stepAbrupt]
   generalize iterClose it = cl at hc
   obtain ⟨ev, err⟩ := cl
